@@ -221,7 +221,7 @@ MUTANTS = [
     dict(name="annex-any-tag", file="instance.cpp", find="!stack.back().empty() && stack.back()[0] == ANNEX_TAG) {", replace="!stack.back().empty() && stack.back()[0] >= ANNEX_TAG) {", expect=["R03.6:annex-rule"]),
     dict(name="weight-of-stripped-stack", file="instance.cpp", find="::GetSerializeSize(wstack, PROTOCOL_VERSION) + VALIDATION_WEIGHT_OFFSET;", replace="::GetSerializeSize(stack, PROTOCOL_VERSION) + VALIDATION_WEIGHT_OFFSET;", expect=["R03.6:validation-weight"]),
     dict(name="legacy-for-any-input", file="instance.cpp", find="    if (wstack.size() > 0) {\n        // segwit", replace="    if (wstack.size() > 1) {\n        // segwit", expect=["R03.7:legacy-branch-is-BASE"]),
-    dict(name="legacy-sigver-not-assigned", file="instance.cpp", find="        // legacy\n        sigver = SigVersion::BASE;\n", replace="        // legacy\n", expect=["R03.7:sigver-assigned-on-every-path", "R03.7:legacy-branch-is-BASE"]),
+    dict(name="legacy-sigver-not-assigned", file="instance.cpp", find="            return false;\n        }\n        sigver = SigVersion::BASE;\n        script = scriptSig;\n", replace="            return false;\n        }\n        script = scriptSig;\n", expect=["R03.7:sigver-assigned-on-every-path", "R03.7:legacy-branch-is-BASE"]),
     dict(name="vout-by-input-index", file="instance.cpp", find="    spent_outputs.emplace_back(txin->vout[txin_vout_index]);\n    txdata = PrecomputedTransactionData();", replace="    spent_outputs.emplace_back(txin->vout[txin_index]);\n    txdata = PrecomputedTransactionData();", expect=["R03.1:subscript=vout"]),
     dict(name="witness-of-wrong-input", file="instance.cpp", find="    auto& wstack = tx->vin[txin_index].scriptWitness.stack;", replace="    auto& wstack = tx->vin[txin_vout_index].scriptWitness.stack;", expect=["R03.1:subscript=vin"]),
     dict(name="select-ignored", file="instance.cpp", find="            txin_index = select_index;\n            txin_vout_index = tx->vin[select_index].prevout.n;\n        } else {", replace="        }\n        {", expect=["R03.2:select-honoured", "R03.2:select-branch"]),
